@@ -646,6 +646,74 @@ def _param_root(g, op, depth=0):
     return None
 
 
+def _c02a_pair_roles(f, it):
+    """the iteration runs over zip(self.totals, project_to()) pairs and nothing else"""
+    import iters as IT
+    ch = it.chain()
+    zt = IT.chain_get(ch, "zip")
+    if zt is None or IT.chain_names(ch)[0] != "zip":
+        return False, "zip not recognised (chain %s)" % IT.chain_names(ch)
+    s0, i0 = f.slice_locals(zt["args"][0])
+    s1, i1 = f.slice_locals(zt["args"][1])
+    first_totals = ("sfs_core::input::site::reader::Reader", "totals") in i0["fields"] and ("sfs_core::input::site::reader::Reader", "counts") not in i0["fields"]
+    second_to = any(callee_is(t_["callee"], "sfs_core::spectrum::project::PartialProjection::project_to") for _, t_ in i1["calls"])
+    plain = [n for n in IT.chain_names(ch) if n not in ("zip", "iter")] == []
+    return first_totals and second_to and plain, "first=self.totals:%s second=project_to():%s no other adaptor:%s" % (first_totals, second_to, plain)
+
+
+def _c02a_by_facts(chk, rs, its, desc):
+    import iters as IT
+    f = rs.fn
+    prog = chk.prog
+    EQ, GE, NE, LT = ("Eq", (0,), (1,)), ("Ge", (0,), (1,)), ("Ne", (0,), (1,)), ("Lt", (0,), (1,))
+    sites = [(b, v) for b, v, rv in rs.site_aggregates() if rs.in_proj(b)]
+    if {v for b, v in sites} != {"Standard", "Projected", "InsufficientData"}:
+        return False
+    rows = []
+    used = {}
+    for b, variant in sites:
+        fa = IT.forall_guards(prog, f, its, b)
+        ex = IT.exists_guards(prog, f, its, b)
+        for x in fa + ex:
+            used[id(x["it"])] = x["it"]
+        rows.append((b, variant, fa, ex))
+    if not used:
+        return False
+    def has(xs, c):
+        return [x for x in xs if x["cmp"] == c]
+    for b, variant, fa, ex in rows:
+        how = "for every pair: %s; for some pair: %s" % ([(x["cmp"][0], x["how"]) for x in fa], [(x["cmp"][0], x["how"]) for x in ex])
+        if variant == "Standard":
+            chk.ob("C02.a", "read_site/projection/Standard<=exact", bool(has(fa, EQ)), f.loc(b),
+                   "Site::Standard under projection requires total == to for every axis at this point (%s)" % how)
+        elif variant == "Projected":
+            chk.ob("C02.a", "read_site/projection/Projected<=!exact&&projectable", bool(has(fa, GE)) and bool(has(ex, NE) or has(ex, ("Gt", (0,), (1,)))), f.loc(b),
+                   "Site::Projected requires total >= to for every axis and total != to for some axis at this point (%s)" % how)
+            chk.ob("C02.a", "fold-closure/projectable-operator", bool(has(fa, GE)), f.loc(b), "projectable must be exactly `total >= to` for every axis (%s)" % how)
+        else:
+            chk.ob("C02.a", "read_site/projection/Insufficient<=!projectable", bool(has(ex, LT)), f.loc(b),
+                   "Site::InsufficientData under projection requires total < to for some axis at this point (%s)" % how)
+    for it in used.values():
+        chk.fns_analysed.add(it.body.path)
+        ok, why = _c02a_pair_roles(f, it)
+        chk.ob("C02.a", "read_site/fold/zip(totals, project_to)[%s]" % it.loc().split(":")[0].split("/")[-1], ok, it.loc(), "the per-axis decision must run over (total, to) pairs: %s" % why)
+        chk.saw_calls()
+    allc = []
+    for it in used.values():
+        allc += IT.body_comparisons(it)
+    allc = [IT.norm_cmp(c) if len(c) == 3 and c[1] is not None and c[2] is not None else c for c in allc]
+    extra = [c for c in allc if c not in (EQ, GE, NE, LT, ("Gt", (0,), (1,)))]
+    chk.ob("C02.a", "fold-closure/no-other-comparison", not extra and 1 <= len(allc) <= 3, f.loc(),
+           "the covered-site decision compares (total, to) only; every comparison in the per-pair bodies: %s" % allc)
+    for b, variant, rv in rs.site_aggregates():
+        if not rs.in_proj(b) and not rs.in_noproj(b):
+            chk.ob("C02.a", "read_site/%s/decided-under-the-projection-option" % variant, False, f.loc(b),
+                   "Site::%s is constructed outside both branches of the projection option: with --project it bypasses the exact / projectable decision" % variant)
+    chk.extra["C02.a-form"] = "decided from per-outcome facts (no two-flag form); flags seen: %s" % (desc,)
+    chk.rule_counts["C02.a"] = chk.rule_counts.get("C02.a", 0) + 4   # the four flag-form obligations (own flag, init) have no counterpart here
+    return True
+
+
 def c02a(chk, rs):
     import iters as IT
     f = rs.fn
@@ -689,6 +757,11 @@ def c02a(chk, rs):
         if k:
             by[k].append((b, cf))
     desc = [(f.loc(b), cf["form"], cf["cmps"]) for b, cf in flags]
+    if len(by["exact"]) != 1 or len(by["projectable"]) != 1:
+        # not the two-flag form: decide each outcome from what is established, at the place the site is built, about all / some
+        # (total, to) pairs - by whichever of flag, all()/any()/find(), guarded loop exit or returned enum variant the code uses
+        if _c02a_by_facts(chk, rs, its, desc):
+            return
     if not flags:
         chk.fail("C02.a", "read_site/fold", f.loc(), "no per-axis conjunction (fold / loop / all over (total, to) pairs) decides the projection branch")
         return
@@ -806,7 +879,12 @@ def c02b(chk, rs):
     if g is not None:
         cs = an.calls(g, PITER_NEW)
         ok = len(cs) == 1 and [_param_root(g, a) for a in cs[0][1]["args"]] == [1, 2, 3, 4]
-        chk.ob("C02.b", "Projected::new_unchecked/forwarding", ok, g.loc(), "must forward its four arguments in order")
+        why_f = "must forward its four arguments in order"
+        if not cs and chk.prog.fn(PITER_NEW) is g:
+            # ProjectIter::new_unchecked was merged into this function: the iterator is built here, from these arguments (fields rule below)
+            ok = True
+            why_f = "the iterator is constructed in place (ProjectIter::new_unchecked merged into its only caller); the field roles are checked below"
+        chk.ob("C02.b", "Projected::new_unchecked/forwarding", ok, g.loc(), why_f)
         w = None
         for b2, i, p, rv, s in g.assigns():
             if rv["k"] == "aggregate" and rv["akind"] == "adt" and rv["adt"].endswith("project::Projected"):
@@ -965,7 +1043,14 @@ def c02g(chk):
     pc = chk.fn("sfs_core::utils::factorial::precomputed")
     if pc is not None:
         ok = False
-        for c in prog.closures_of(pc.path):
+        # the initialiser handed to get_or_init: a closure, or a function named as a value (`get_or_init(factorial_table)`)
+        inits = list(prog.closures_of(pc.path))
+        for _, t_ in pc.calls():
+            for a_ in t_["args"]:
+                if a_["k"] == "const" and a_.get("fn") and prog.fn(a_["fn"]) is not None and a_["fn"].startswith("sfs_core::utils::"):
+                    inits.append(prog.fn(a_["fn"]))
+                    chk.fns_analysed.add(a_["fn"])
+        for c in inits:
             for c2 in [c] + prog.closures_of(c.path):
                 muls = [rv for _, _, _, rv, _ in c2.assigns() if rv["k"] == "binop" and rv["op"] == "Mul"]
                 stores = [p for _, _, p, rv, _ in c2.assigns() if p[1] == (("deref",),)]
@@ -1508,7 +1593,7 @@ def c10b(chk):
         chk.fail("C10.b", "handle_skipped_site/strict-error-names-contig-and-position", h.loc(), "no formatted anyhow error found")
     # the two accessors are evaluated for the *current* record: they are called on self.reader in this function
     cc = an.calls(h, "sfs_core::input::site::reader::Reader::current_contig") + an.calls(h, "sfs_core::input::site::reader::Reader::current_position")
-    ok = len(cc) == 2 and all(an.self_field(an.arg_pointee(h, t, 0) or (0, ())) == "reader" for _, t in cc)
+    ok = len(cc) >= 2 and all(an.self_field(an.arg_pointee(h, t, 0) or (0, ())) == "reader" for _, t in cc)
     chk.ob("C10.b", "handle_skipped_site/accessors-on-self.reader", ok, h.loc(), "contig/position are read from self.reader at the time of the skip (no deferred error state)")
     # no field other than `skipped` is written here (no deferred state)
     w = {fld for fld, how, b in an.self_field_writes(chk.prog, h)}
